@@ -243,6 +243,16 @@ def gen_cases(ctx: Ctx):
                 c["scheds"] = pick_scheds(r, 1 if ctx.quick else 2)
                 c["outputs"] = ((i + mi + rep) % 3 == 0)
                 cases.append(c)
+    if not ctx.quick:
+        # exhaustive small scope: every shape of a product space with 1..3 parameters of 1..3 values, files on
+        # (file index = row-major rank of the cell for every small shape), threaded
+        import itertools
+        for n in (1, 2, 3):
+            for shape in itertools.product((1, 2, 3), repeat=n):
+                ps = [dict(values=gen_values(r, 0, k)) for k in shape]
+                cases.append(dict(kind="enc", mode="product", params=ps, defaults=[0] * n, outputs=True,
+                                  sleep_scale=0.02, sleep_mult=r.randrange(1, 5),
+                                  scheds=[dict(scheduler="threads", workers=4)]))
     # process pool (slow to start): a few cases
     for j in range(ctx.budget(2, 8)):
         c = gen_enc(r, ["product", "custom"][j % 2], 2, "")
